@@ -90,6 +90,14 @@ func (rt *Runtime) ExecCase(w *World, c *Case) (out CaseOutcome) {
 	// Every build runs at the same simulated instant: packages whose mtime is
 	// not fixed, and signatures made by nfpm's own key-file path, read the
 	// clock, and the reference model must be a function of the input.
+	if c.FS != nil && c.FS.Kind == "unreadable" {
+		out.Leaked = rt.InBubble(SimNow, func() {
+			if !WithoutFilePrivileges(func() { out.Res = rt.Build(w, o) }) {
+				out.SetupErr = fmt.Errorf("cannot drop file capabilities")
+			}
+		})
+		return out
+	}
 	out.Leaked = rt.InBubble(SimNow, func() { out.Res = rt.Build(w, o) })
 	return out
 }
